@@ -3279,6 +3279,22 @@ struct CliArgs {
     generate_config: Option<String>,
 }
 
+/// True if `data_dir` contains a snapshot or a WAL segment with at least one byte beyond its
+/// 4-byte header. An interrupted very first start leaves at most an empty WAL segment behind.
+fn data_dir_holds_persisted_state(data_dir: &std::path::Path) -> bool {
+    const WAL_HEADER_LEN: u64 = 4;
+    let Ok(entries) = std::fs::read_dir(data_dir) else {
+        return false;
+    };
+    entries.flatten().any(|entry| {
+        let name = entry.file_name();
+        let name = name.to_string_lossy();
+        let len = entry.metadata().map(|m| m.len()).unwrap_or(0);
+        (name.starts_with("snapshot_") && len > 0)
+            || (name.starts_with("wal_") && name.ends_with(".wal") && len > WAL_HEADER_LEN)
+    })
+}
+
 #[tokio::main]
 async fn main() -> anyhow::Result<()> {
     // Initialize deadlock detection in debug builds
@@ -3570,7 +3586,11 @@ async fn main() -> anyhow::Result<()> {
 
     let data_dir_path = config.persistence.data_dir.clone();
     let manifest_path = data_dir_path.join("MANIFEST");
-    let should_attempt_recovery = config.persistence.enable_recovery && manifest_path.exists();
+    // A data directory that lost its MANIFEST but still holds snapshots or WAL entries is a
+    // damaged database, not a new one: route it through recovery (which fails fast in strict
+    // mode) instead of silently initializing an empty database over the stored documents.
+    let should_attempt_recovery = config.persistence.enable_recovery
+        && (manifest_path.exists() || data_dir_holds_persisted_state(&data_dir_path));
 
     let create_empty_engine =
         |cache_strategy: Box<dyn kyrodb_engine::CacheStrategy>,
